@@ -27,6 +27,9 @@
 #include "Compiler/include/ParserGenerator/lrparser.hpp"
 #include "VM/include/vm.hpp"
 
+#ifdef VERIF_COVERAGE
+extern "C" void __gcov_dump(void);   // development build for tools/coverage.py only
+#endif
 #if defined(__SANITIZE_ADDRESS__)
 #include <sanitizer/lsan_interface.h>
 #define VERIF_LEAK_CHECK 1
@@ -618,6 +621,9 @@ int main(int argc, char **argv) {
       if (__lsan_do_recoverable_leak_check()) printf("%s LEAK\n", id.c_str());
 #endif
       fflush(stdout);
+#ifdef VERIF_COVERAGE
+      __gcov_dump();
+#endif
       _exit(0);
     }
     int st = 0;
